@@ -170,12 +170,24 @@ func VerifH11() {
 	srv, err := NewServer(w.parse, opts...)
 	vAssert("newserver-ok", err == nil)
 	session := vCat(vStartup(vKV([]byte("user"), []byte("u"))), vMsgBytes('X', nil))
+	cancelInside := nondetBool()
+	if cancelInside {
+		// a CancelRequest (any pid/secret) sent after the SSL negotiation
+		session = vCat([]byte{0, 0, 0, 16, 0x04, 0xd2, 0x16, 0x2e}, nondetBytes(8), nondetBytes(vChoose(3)))
+	}
 
 	if cfgKind == 2 {
 		// with certificates: 'S', then everything inside TLS
 		run := vServeTLS(srv, vCat(vSSLRequest, stuffed), session)
 		vAssert("ssl-accepted-with-single-S", len(run.rawOut) >= 1 && run.rawOut[0] == 'S')
 		vAssert("nothing-but-TLS-after-S", vOnlyTLSRecords(run.rawOut[1:]))
+		if cancelInside {
+			vAssert("cancel-after-upgrade-no-reply", len(run.innerOut) == 0)
+			vAssert("cancel-after-upgrade-no-callback", len(seenUsers) == 0 && len(w.events) == 0)
+			vAssert("closed", run.closed)
+			vReach("cancel-after-upgrade")
+			return
+		}
 		vAssert("session-runs-inside-TLS", vWireOK(run.innerOut) && vCount(vTypes(run.innerOut), 'Z') == 1)
 		vAssert("one-session", len(seenUsers) == 1)
 		if len(seenUsers) == 1 {
@@ -189,6 +201,9 @@ func VerifH11() {
 		return
 	}
 	// without certificates: 'N', then the same connection continues in plaintext
+	if cancelInside {
+		return // cancel after the refusal is H12b
+	}
 	var rest []byte
 	if stuffKind == 0 {
 		rest = session
